@@ -165,31 +165,44 @@ class Hang(BaseException):
     num_variables exceeds what the file holds)"""
 
 
+_fired = [False]
+
+
 def _on_alarm(signum, frame):
+    _fired[0] = True
     raise Hang()
 
 
 def real_read(path, nv, check, sim0=None, limit=0.5):
+    """the real read under a timer.  fortran_float's bare `except:` can swallow the timer's exception (and then
+    returns nan, which even lets the spinning loop finish), so a fired timer counts as a hang whatever came back."""
     import t2incons, signal
-    # a repeating timer: fortran_float's bare `except:` can swallow one delivery
+    _fired[0] = False
     old = signal.signal(signal.SIGALRM, _on_alarm)
     signal.setitimer(signal.ITIMER_REAL, limit, 0.02)
     try:
-        with contextlib.redirect_stdout(io.StringIO()):
-            if sim0 is None:
-                inc = t2incons.t2incon(path, num_variables=nv, check_blocknames=check)
-            else:
-                inc = t2incons.t2incon()
-                inc.simulator = sim0
-                inc.read(path, nv, check)
-        signal.setitimer(signal.ITIMER_REAL, 0, 0)
-        return inc
+        try:
+            with contextlib.redirect_stdout(io.StringIO()):
+                if sim0 is None:
+                    inc = t2incons.t2incon(path, num_variables=nv, check_blocknames=check)
+                else:
+                    inc = t2incons.t2incon()
+                    inc.simulator = sim0
+                    inc.read(path, nv, check)
+        finally:
+            signal.setitimer(signal.ITIMER_REAL, 0, 0)
     except Hang:
-        signal.setitimer(signal.ITIMER_REAL, 0, 0)
         raise RuntimeError('HANG')
+    except Exception:
+        if _fired[0]:
+            raise RuntimeError('HANG')
+        raise
     finally:
         signal.setitimer(signal.ITIMER_REAL, 0, 0)
         signal.signal(signal.SIGALRM, old)
+    if _fired[0]:
+        raise RuntimeError('HANG')
+    return inc
 
 
 def read_text(path):
@@ -307,7 +320,7 @@ def gen_case(rng, kind):
         if rng.random() < 0.2 and names: names.append(names[0])            # duplicate: add_incon replaces
     nvars = rng.choice([1, 2, 3, 4, 4, 5, 6, 7, 8, 9, 11, 12])
     tr = rng.random() < 0.35
-    perm_mode = rng.choice(['all', 'all', 'some']) if tr else 'none'
+    perm_mode = rng.choice(['all', 'all', 'some', 'some', 'none']) if tr else 'none'
     if not wf and rng.random() < 0.15:
         tr, perm_mode = rng.choice([(True, 'none'), (False, 'all'), (False, 'some')])   # flavour and permeabilities inconsistent
     seq_mode = rng.choice(['none', 'none', 'all', 'some'])
@@ -332,10 +345,8 @@ def gen_case(rng, kind):
             if not wf and rng.random() < 0.1:
                 nseq = rng.choice([100000, -1, -10000, None])
         blocks.append([name, nseq, nadd, por, perm, vs])
-    if wf and perm_mode == 'some' and blocks and all(b[4] is None for b in blocks):
+    if perm_mode == 'some' and blocks and all(b[4] is None for b in blocks):
         blocks[0][4] = [1e-15, 1e-15, 2e-15]
-    if wf and tr and not blocks:
-        tr = False
     timing = None
     if rng.random() < 0.5:
         big = 999999 if tr else 99999
@@ -353,6 +364,74 @@ def gen_case(rng, kind):
 
 
 # ------------------------------------------------------------------ oracle
+
+def guard_text(v, w, p):
+    """what write_values_to_string puts in a 'w.pe' field for v (full precision, else the largest smaller one that fits)"""
+    for q in range(p, -1, -1):
+        s = ('%%%d.%de' % (w, q)) % v
+        if len(s) <= w:
+            return s
+    return None
+
+
+def exp_digits(text):
+    t = text.strip().lower()
+    return len(t.split('e')[1].lstrip('+-')) if 'e' in t else 0
+
+
+def classify_rewrite(case, t1, t2):
+    """keys for a second generation that differs from the first.  Two classes are understood precisely (and only
+    they get their own key); any other difference is 'rewrite-differs'."""
+    l1, l2 = t1.split('\n'), t2.split('\n')
+    if len(l1) != len(l2):
+        return [('rewrite-differs', 'second write has %d lines, the first %d' % (len(l2), len(l1)))]
+    diffs = [k for k, (a, b) in enumerate(zip(l1, l2)) if a != b]
+    out, other = [], []
+    pool = [x for b in case['blocks'] for x in ([b[3]] + list(b[4] or []) + list(b[5])) if isinstance(x, float)]
+    if case['timing'] is not None:
+        pool += [x for x in case['timing'][3:] if isinstance(x, float)]
+    body = []
+    for k in diffs:
+        a, b = l1[k], l2[k]
+        if k == 0:
+            # long header: the time is printed at 6 decimals from the in-memory value, next time from the 9-decimal one
+            st = case['timing'][4] if (case['timing'] is not None and not case['reset']) else None
+            ok = False
+            if isinstance(st, float) and len(a) == len(b) and a[:-12] == b[:-12]:
+                first = guard_text(st, 12, 6)
+                nine = guard_text(st, 15, 9)
+                second = guard_text(float(nine), 12, 6) if nine is not None else None
+                ok = first is not None and a[-12:] == first and b[-12:] == second and first != second
+            (out if ok else other).append(('rewrite-differs-header', 'header time printed at 6 decimals differs between generations (double rounding through the 9-decimal timing record): %r vs %r' % (a, b)))
+            continue
+        if len(a) != len(b):
+            other.append(('rewrite-differs', 'line %d: %r vs %r' % (k + 1, a, b))); continue
+        if len(a) % 20 == 0 and 0 < len(a) <= 80:
+            cols = [(i, i + 20, 13) for i in range(0, len(a), 20)]
+        else:
+            cols = [(i, i + 15, 9) for i in range(15, len(a), 15)]
+            if a[:15] != b[:15]:
+                other.append(('rewrite-differs', 'line %d: %r vs %r' % (k + 1, a, b))); continue
+        ok = True
+        for i, j, p in cols:
+            fa, fb = a[i:j], b[i:j]
+            if fa == fb: continue
+            w = j - i
+            try: xa, xb = float(fa), float(fb)
+            except ValueError: ok = False; break
+            # same value; second generation at full precision; first one reduced by the width guard for a value whose
+            # full-precision text had a longer exponent (the carry shortened it)
+            src = [x for x in pool if len(('%%%d.%de' % (w, p)) % x) > w and guard_text(x, w, p) == fa]
+            if not (same_float(xa, xb) and fb == ('%%%d.%de' % (w, p)) % xa and src and
+                    all(exp_digits(('%%%d.%de' % (w, p)) % x) > exp_digits(fa) for x in src)):
+                ok = False; break
+        (body if ok else other).append(('rewrite-differs-same-values', 'line %d: same values, precision reduced by the width guard in the first generation only (carry to a shorter exponent): %r vs %r' % (k + 1, a, b)))
+    res = []
+    if out: res.append(out[0])
+    if body: res.append(body[0])
+    for key, what in other[:1]:
+        res.append(('rewrite-differs', 'second write differs from the first (not one of the two understood classes): ' + what))
+    return res
 
 def same_float(a, b):
     return (a == b and math.copysign(1, a) == math.copysign(1, b)) or (math.isnan(a) and math.isnan(b))
@@ -418,7 +497,15 @@ def oracle(case, real, res=None):
         if (b.nseq, b.nadd) != (nseq, nadd):
             v('nseq-nadd', 'block %r: (nseq, nadd) = %r read back as %r' % (name, (nseq, nadd), (b.nseq, b.nadd))); break
     if viol: return viol
+    tr_noperm = tr and not any(b[4] is not None for b in case['blocks'])
     if inc2.simulator != case['sim']:
+        if tr_noperm and inc2.simulator == 'TOUGH2':
+            # the file format carries the flavour only through the permeability columns: flavour (and with it the
+            # layout of the timing record and of the next write) is lost; everything else was compared above
+            v('toughreact-flavour-lost-without-permeability',
+              'simulator TOUGHREACT with no block carrying permeabilities reads back as %r%s' % (inc2.simulator,
+              '' if (case['timing'] is None or case['reset']) else '; its timing record %r is then parsed with the TOUGH2 layout: %r' % (case['timing'], inc2.timing)))
+            return viol
         v('simulator', 'simulator %r read back as %r' % (case['sim'], inc2.simulator))
     if case['timing'] is None or case['reset']:
         if inc2.timing is not None:
@@ -440,18 +527,8 @@ def oracle(case, real, res=None):
         if isinstance(t2, str) and t2.startswith('exc '):
             v('rewrite-raises', 'writing the re-read initial conditions raises %s' % t2[4:])
         else:
-            l1, l2 = t1.split('\n'), (t2 or '').split('\n')
-            k = next((i for i, (a, b) in enumerate(zip(l1, l2)) if a != b), min(len(l1), len(l2)))
-            if k == 0:
-                key = 'rewrite-differs-header'
-            else:
-                # same numbers printed differently (precision reduced by the width guard in one generation only)?
-                def nums(l):
-                    try: return [float(l[i:i + 20]) for i in range(0, len(l), 20)]
-                    except ValueError: return None
-                a, b = nums(l1[k]) if k < len(l1) else None, nums(l2[k]) if k < len(l2) else None
-                key = 'rewrite-differs-same-values' if (a is not None and a == b) else 'rewrite-differs'
-            v(key, 'second write differs from the first at line %d: %r vs %r' % (k + 1, l1[k:k + 1], l2[k:k + 1]))
+            for key, what in classify_rewrite(case, t1, t2 or ''):
+                v(key, what)
     return viol
 
 
